@@ -521,7 +521,11 @@ Theorem add_reg_ops_correct st m sz dst nd sd xd lhs rhs b :
      of <- set_of (EScalar (temp_k 0 sz)) lhs rhs false ;; c <- mk_bin Cmpltu (EScalar (temp_k 0 sz)) lhs ;;
      s <- ops_store m sz dst (EScalar (temp_k 0 sz)) ;;
      Ok ([OAssign (temp_k 0 sz) e; zf; sf; of; assign_flag X86Lift.n_CF c] ++ s)) = Ok ops /\
+    forallb is_assign ops = true /\
+    (0 < length ops <= 16)%nat /\
     exec_ops st ops = Ok st' /\
+    (forall k, k <> (nd, None) -> k <> kT0 -> k <> kZF -> k <> kSF -> k <> kOF -> k <> kCF ->
+       env_get (st_env st') k = env_get (st_env st) k) /\
     st_mem st' = st_mem st /\
     env_get (st_env st') (nd, None) = Some (mkc (wordsz m) (arch_write sd (wordsz m) xd r)) /\
     env_get (st_env st') kZF = Some (mkc 1 (X86.b2z (r =? 0))) /\
@@ -601,6 +605,8 @@ Proof.
   split.
   { fold t0 T. rewrite E1. cbn [bind]. rewrite Zf. cbn [bind]. rewrite Sf. cbn [bind]. rewrite Of. cbn [bind].
     rewrite E5. cbn [bind]. unfold ops_store. rewrite Xd, Se. cbn [bind]. reflexivity. }
+  split; [reflexivity|].
+  split; [cbn; lia|].
   split.
   { cbn [exec_ops app].
     rewrite (exec_assign st t0 _ _ D1). cbn [bind fst st_env st_mem]. fold en. rewrite KT. fold e1.
@@ -609,6 +615,8 @@ Proof.
     rewrite (exec_assign (mkst e3 _) _ _ _ Do). cbn [bind fst st_env st_mem]. change (skey_of (flag_scalar X86Lift.n_OF)) with kOF. fold e4.
     unfold assign_flag. rewrite (exec_assign (mkst e4 _) _ _ _ D5). cbn [bind fst st_env st_mem]. change (skey_of (flag_scalar X86Lift.n_CF)) with kCF. fold e5.
     rewrite (exec_assign (mkst e5 _) _ _ _ Dw). cbn [bind fst st_env st_mem]. reflexivity. }
+  split.
+  { intros k K0 K1 K2 K3 K4 K5. cbn [st_env]. unfold e6, e5, e4, e3, e2, e1. rewrite !env_get_set_other by assumption. reflexivity. }
   split; [reflexivity|]. cbn [st_env].
   split; [apply env_get_set_same|].
   unfold e6, e5, e4, e3, e2.
@@ -634,7 +642,11 @@ Theorem sub_reg_ops_correct st m sz dst nd sd xd lhs rhs b :
      of <- set_of (EScalar (temp_k 0 sz)) lhs rhs true ;; c <- set_cf (EScalar (temp_k 0 sz)) lhs ;;
      s <- ops_store m sz dst (EScalar (temp_k 0 sz)) ;;
      Ok ([OAssign (temp_k 0 sz) e; zf; sf; of; c] ++ s)) = Ok ops /\
+    forallb is_assign ops = true /\
+    (0 < length ops <= 16)%nat /\
     exec_ops st ops = Ok st' /\
+    (forall k, k <> (nd, None) -> k <> kT0 -> k <> kZF -> k <> kSF -> k <> kOF -> k <> kCF ->
+       env_get (st_env st') k = env_get (st_env st) k) /\
     st_mem st' = st_mem st /\
     env_get (st_env st') (nd, None) = Some (mkc (wordsz m) (arch_write sd (wordsz m) xd r)) /\
     env_get (st_env st') kZF = Some (mkc 1 (X86.b2z (r =? 0))) /\
@@ -712,6 +724,8 @@ Proof.
   split.
   { fold t0 T. rewrite E1. cbn [bind]. rewrite Zf. cbn [bind]. rewrite Sf. cbn [bind]. rewrite Of. cbn [bind].
     rewrite Cf. cbn [bind]. unfold ops_store. rewrite Xd, Se. cbn [bind]. reflexivity. }
+  split; [reflexivity|].
+  split; [cbn; lia|].
   split.
   { cbn [exec_ops app].
     rewrite (exec_assign st t0 _ _ D1). cbn [bind fst st_env st_mem]. fold en. rewrite KT. fold e1.
@@ -720,6 +734,8 @@ Proof.
     rewrite (exec_assign (mkst e3 _) _ _ _ Do). cbn [bind fst st_env st_mem]. change (skey_of (flag_scalar X86Lift.n_OF)) with kOF. fold e4.
     rewrite (exec_assign (mkst e4 _) _ _ _ D5). cbn [bind fst st_env st_mem]. change (skey_of (flag_scalar X86Lift.n_CF)) with kCF. fold e5.
     rewrite (exec_assign (mkst e5 _) _ _ _ Dw). cbn [bind fst st_env st_mem]. reflexivity. }
+  split.
+  { intros k K0 K1 K2 K3 K4 K5. cbn [st_env]. unfold e6, e5, e4, e3, e2, e1. rewrite !env_get_set_other by assumption. reflexivity. }
   split; [reflexivity|]. cbn [st_env].
   split; [apply env_get_set_same|].
   unfold e6, e5, e4, e3, e2.
@@ -741,7 +757,11 @@ Theorem cmp_reg_ops_correct st m sz dst nd sd xd lhs rhs b :
     lift_alu m ACmp sz dst (OImm 0) <> None /\
     (e <- mk_bin Sub lhs rhs ;; zf <- set_zf e ;; sf <- set_sf e ;; of <- set_of e lhs rhs true ;; cf <- set_cf e lhs ;;
      Ok [zf; sf; of; cf]) = Ok ops /\
+    forallb is_assign ops = true /\
+    (0 < length ops <= 16)%nat /\
     exec_ops st ops = Ok st' /\
+    (forall k, k <> (nd, None) -> k <> kT0 -> k <> kZF -> k <> kSF -> k <> kOF -> k <> kCF ->
+       env_get (st_env st') k = env_get (st_env st) k) /\
     st_mem st' = st_mem st /\
     env_get (st_env st') (nd, None) = Some (mkc (wordsz m) xd) /\
     env_get (st_env st') kZF = Some (mkc 1 (X86.b2z (r =? 0))) /\
@@ -793,6 +813,8 @@ Proof.
   split; [cbn; discriminate|].
   split.
   { rewrite E1. cbn [bind]. rewrite Zf. cbn [bind]. rewrite Sf. cbn [bind]. rewrite Of. cbn [bind]. rewrite Cf. cbn [bind]. reflexivity. }
+  split; [reflexivity|].
+  split; [cbn; lia|].
   split.
   { cbn [exec_ops].
     rewrite (exec_assign st _ _ _ Dz). cbn [bind fst st_env st_mem]. fold en. change (skey_of (flag_scalar X86Lift.n_ZF)) with kZF. fold e2.
@@ -800,6 +822,8 @@ Proof.
     rewrite (exec_assign (mkst e3 _) _ _ _ Do). cbn [bind fst st_env st_mem]. change (skey_of (flag_scalar X86Lift.n_OF)) with kOF. fold e4.
     rewrite (exec_assign (mkst e4 _) _ _ _ D5). cbn [bind fst st_env st_mem]. change (skey_of (flag_scalar X86Lift.n_CF)) with kCF. fold e5.
     reflexivity. }
+  split.
+  { intros k K0 K1 K2 K3 K4 K5. cbn [st_env]. unfold e5, e4, e3, e2. rewrite !env_get_set_other by assumption. reflexivity. }
   split; [reflexivity|]. cbn [st_env]. unfold e5, e4, e3, e2.
   split; [rewrite !env_get_set_other by (unfold kT0, kZF, kSF, kOF, kCF, X86Lift.n_ZF, X86Lift.n_SF, X86Lift.n_OF, X86Lift.n_CF in *; congruence); exact Ed|].
   split; [rewrite !env_get_set_other by (unfold kT0, kZF, kSF, kOF, kCF, X86Lift.n_ZF, X86Lift.n_SF, X86Lift.n_OF, X86Lift.n_CF in *; congruence); apply env_get_set_same|].
@@ -838,7 +862,11 @@ Theorem logic_reg_ops_correct st m op f sz dst nd sd xd lhs rhs b :
     (e <- mk_bin op lhs rhs ;; zf <- set_zf (EScalar (temp_k 0 sz)) ;; sf <- set_sf (EScalar (temp_k 0 sz)) ;;
      s <- ops_store m sz dst (EScalar (temp_k 0 sz)) ;;
      Ok ([OAssign (temp_k 0 sz) e; zf; sf; assign_flag X86Lift.n_CF (expr_const 0 1); assign_flag X86Lift.n_OF (expr_const 0 1)] ++ s)) = Ok ops /\
+    forallb is_assign ops = true /\
+    (0 < length ops <= 16)%nat /\
     exec_ops st ops = Ok st' /\
+    (forall k, k <> (nd, None) -> k <> kT0 -> k <> kZF -> k <> kSF -> k <> kOF -> k <> kCF ->
+       env_get (st_env st') k = env_get (st_env st) k) /\
     st_mem st' = st_mem st /\
     env_get (st_env st') (nd, None) = Some (mkc (wordsz m) (arch_write sd (wordsz m) xd r)) /\
     env_get (st_env st') kZF = Some (mkc 1 (X86.b2z (r =? 0))) /\
@@ -904,6 +932,8 @@ Proof.
   split.
   { fold t0 T. rewrite E1. cbn [bind]. rewrite Zf. cbn [bind]. rewrite Sf. cbn [bind].
     unfold ops_store. rewrite Xd, Se. cbn [bind]. reflexivity. }
+  split; [reflexivity|].
+  split; [cbn; lia|].
   split.
   { cbn [exec_ops app].
     rewrite (exec_assign st t0 _ _ D1). cbn [bind fst st_env st_mem]. fold en. rewrite KT. fold e1.
@@ -913,6 +943,8 @@ Proof.
     rewrite (exec_assign (mkst e3 _) _ _ _ (DC e3)). cbn [bind fst st_env st_mem]. change (skey_of (flag_scalar X86Lift.n_CF)) with kCF. fold e4.
     rewrite (exec_assign (mkst e4 _) _ _ _ (DC e4)). cbn [bind fst st_env st_mem]. change (skey_of (flag_scalar X86Lift.n_OF)) with kOF. fold e5.
     rewrite (exec_assign (mkst e5 _) _ _ _ Dw). cbn [bind fst st_env st_mem]. reflexivity. }
+  split.
+  { intros k K0 K1 K2 K3 K4 K5. cbn [st_env]. unfold e6, e5, e4, e3, e2, e1. rewrite !env_get_set_other by assumption. reflexivity. }
   split; [reflexivity|]. cbn [st_env].
   split; [apply env_get_set_same|].
   unfold e6, e5, e4, e3, e2.
@@ -935,7 +967,11 @@ Theorem incdec_reg_ops_correct st m (sub : bool) sz dst nd sd xd lhs :
     (e <- mk_bin op lhs (expr_const 1 (e_bits lhs)) ;;
      zf <- set_zf e ;; sf <- set_sf e ;; of <- set_of e lhs (expr_const 1 (e_bits lhs)) sub ;;
      s <- ops_store m sz dst e ;; Ok ([zf; sf; of] ++ s)) = Ok ops /\
+    forallb is_assign ops = true /\
+    (0 < length ops <= 16)%nat /\
     exec_ops st ops = Ok st' /\
+    (forall k, k <> (nd, None) -> k <> kT0 -> k <> kZF -> k <> kSF -> k <> kOF -> k <> kCF ->
+       env_get (st_env st') k = env_get (st_env st) k) /\
     st_mem st' = st_mem st /\
     env_get (st_env st') (nd, None) = Some (mkc (wordsz m) (arch_write sd (wordsz m) xd r)) /\
     env_get (st_env st') kZF = Some (mkc 1 (X86.b2z (r =? 0))) /\
@@ -998,12 +1034,16 @@ Proof.
   split.
   { fold one. rewrite E1. cbn [bind]. rewrite Zf. cbn [bind]. rewrite Sf. cbn [bind]. rewrite Of. cbn [bind].
     unfold ops_store. rewrite Xd, Se. cbn [bind]. reflexivity. }
+  split; [reflexivity|].
+  split; [cbn; lia|].
   split.
   { cbn [exec_ops app].
     rewrite (exec_assign st _ _ _ Dz). cbn [bind fst st_env st_mem]. fold en. change (skey_of (flag_scalar X86Lift.n_ZF)) with kZF. fold e2.
     rewrite (exec_assign (mkst e2 _) _ _ _ Ds). cbn [bind fst st_env st_mem]. change (skey_of (flag_scalar X86Lift.n_SF)) with kSF. fold e3.
     rewrite (exec_assign (mkst e3 _) _ _ _ Do). cbn [bind fst st_env st_mem]. change (skey_of (flag_scalar X86Lift.n_OF)) with kOF. fold e4.
     rewrite (exec_assign (mkst e4 _) _ _ _ Dw). cbn [bind fst st_env st_mem]. reflexivity. }
+  split.
+  { intros k K0 K1 K2 K3 K4 K5. cbn [st_env]. unfold e5, e4, e3, e2. rewrite !env_get_set_other by assumption. reflexivity. }
   split; [reflexivity|]. cbn [st_env].
   split; [apply env_get_set_same|].
   unfold e5, e4, e3, e2.
